@@ -35,7 +35,7 @@ func init() {
 	// ------------------------------------------------------------------ C01
 	register(&Prop{
 		ID: "C01", Level: "exploration", QuickS: 20, ThoroughS: 300,
-		Rule:       "seeded authentication attempts against ClearTextPassword(validator) and a custom failing strategy: validator outcome drawn per case (accept / reject / fail with either verdict flag), the client sends in place of the password message a correct, wrong or empty password, a password message without NUL / with surplus bytes / with declared length 0-3, > limit or 2^32-1, another message type, garbage, or nothing; then a generated tail of queries, extended messages, Terminate and raw bytes, pipelined in the same segment or sent after the server's reply; segmentation and a failing write are drawn per case; a share of cases authenticates inside an upgraded (TLS) connection, with and without an unverified client certificate, judged against the plaintext equivalent; in a quarter of the cases an earlier connection first logs in successfully with related credentials (the same triple, whose password the validator rejects from the second time on, or a triple that reads the same when its parts are joined with a separator), some accounts have an empty password, some servers were given an accept-all strategy before the configured one (last option wins), a failing write is permanent or transient (exactly one write fails); non-trivial = the connection was not accepted and the client sent at least one message after its credentials; distinct = distinct case content hashes",
+		Rule:       "seeded authentication attempts against ClearTextPassword(validator) and a custom failing strategy: validator outcome drawn per case (accept / reject / fail with either verdict flag), the client sends in place of the password message a correct, wrong or empty password, a password message without NUL / with surplus bytes / with declared length 0-3, > limit or 2^32-1, another message type, garbage, or nothing; then a generated tail of queries, extended messages, Terminate and raw bytes, pipelined in the same segment or sent after the server's reply; segmentation and a failing write are drawn per case; a share of cases lets 2-3 connections log in to one account at the same time under seeded schedules (one with the right password); a share of cases authenticates inside an upgraded (TLS) connection, with and without an unverified client certificate, judged against the plaintext equivalent; in a quarter of the cases an earlier connection first logs in successfully with related credentials (the same triple, whose password the validator rejects from the second time on, or a triple that reads the same when its parts are joined with a separator), some accounts have an empty password, some servers were given an accept-all strategy before the configured one (last option wins), a failing write is permanent or transient (exactly one write fails); non-trivial = the connection was not accepted and the client sent at least one message after its credentials; distinct = distinct case content hashes",
 		Components: e1Components, Assumptions: commonAssumptions,
 		Gen: func(r *Rand, tier string) *Case {
 			if r.Chance(1, 15) {
@@ -58,6 +58,35 @@ func init() {
 						return c
 					}
 				}
+			}
+			if r.Chance(1, 12) {
+				// several connections log in to the same account at the same time
+				// (engine E2, seeded schedules), one of them with the right password:
+				// every connection is judged on its own credentials
+				c := &Case{Server: ServerCfg{Auth: "cleartext", Limit: 4096, DefaultAuth: r.Pick("reject", "fail")}, Programs: map[string]*Program{}}
+				user, db, pw := r.Ident(4), r.Ident(3), "secret"+r.Ident(2)
+				c.Server.Validator = []AuthEntry{{DB: db, User: user, PW: pw, Out: "accept"}}
+				if r.Chance(1, 4) {
+					c.Server.MW = []MWSpec{{}}
+				}
+				n := r.Range(2, 3)
+				right := r.Intn(n)
+				for i := 0; i < n; i++ {
+					p := "wrong" + r.Ident(2)
+					if i == right {
+						p = pw
+					}
+					tail := genTail(r, c)
+					c.Conns = append(c.Conns, ConnCase{Steps: []Step{{Msgs: []pgwire.FMsg{startupMsg(user, db)}}, {Msgs: append([]pgwire.FMsg{{K: "p", S1: p}}, tail...)}}})
+				}
+				c.Sched = &SchedCase{Strategy: r.Pick("uniform", "pct"), Depth: r.Range(1, 3), MaxSteps: 200000}
+				if r.Bool() {
+					// the connection with the right password sits inside the validator
+					// until another one has reached it
+					other := (right + 1) % n
+					c.Sched.Holds = []Hold{{Task: 1 + right, Point: "cb.validator", Until: 1 + other, UntilPoint: "cb.validator"}}
+				}
+				return c
 			}
 			c := &Case{Server: ServerCfg{Auth: "cleartext", Limit: r.PickInt(64, 256, 4096)}, Programs: map[string]*Program{}}
 			if r.Chance(1, 12) {
@@ -85,8 +114,16 @@ func init() {
 					cred.Data = []byte{}
 					su.Tail = append([]byte(r.Pick(pw, "x")), 0)
 				}
-			case 0, 1, 2:
+			case 0, 1:
 				cred = pgwire.FMsg{K: "p", S1: pw}
+			case 2:
+				if r.Bool() {
+					cred = pgwire.FMsg{K: "p", S1: pw}
+				} else {
+					// nearly the right password: the validator is asked about exactly
+					// the bytes the client sent
+					cred = pgwire.FMsg{K: "p", S1: r.Pick(pw+"\n", pw+"\r\n", pw+"\r", pw+" ", " "+pw, pw+"\t", strings.ToUpper(pw), pw+"\n\n")}
+				}
 			case 3, 4:
 				cred = pgwire.FMsg{K: "p", S1: "wrong" + r.Ident(2)}
 			case 5:
@@ -193,6 +230,12 @@ func init() {
 				return viol, nt
 			}
 			r := x.Run(c)
+			if c.Sched != nil {
+				c.Sched.Schedule = r.Schedule
+				if r.Outcome == RunBudget {
+					return nil, false
+				}
+			}
 			var viol []Violation
 			nt := false
 			for i, cs := range r.Conns {
@@ -216,6 +259,19 @@ func init() {
 				kinds := pgwire.Kinds(t.Msgs)
 				add := func(rule, detail string) {
 					viol = append(viol, Violation{Prop: "C01", Rule: rule, Sig: rule, Detail: fmt.Sprintf("conn %d: %s (server output %q)", i, detail, kinds)})
+				}
+				// R0: the strategy judges the credentials the client sent: when the
+				// startup packet and the password message are plain and well formed,
+				// the validator is asked about exactly that user, database and password
+				if msgs := cs.cc.FlatMsgs(); len(msgs) > 1 && msgs[0].K == "startup" && isPlain(&msgs[0]) && len(msgs[0].Tail) == 0 && !msgs[0].NoTerm &&
+					msgs[1].K == "p" && isPlain(&msgs[1]) && len(msgs[1].Tail) == 0 {
+					sp := startupParams(&msgs[0])
+					want := fmt.Sprintf("db=%q user=%q pw=%q -> ", sp["database"], sp["user"], msgs[1].S1)
+					for _, e := range cs.Events {
+						if e.K == "validator" && !strings.HasPrefix(e.S, want) {
+							add("validator-asked-about-other-credentials", fmt.Sprintf("the client sent %sbut the validator was asked about %s", strings.TrimSuffix(want, "-> "), e.S))
+						}
+					}
 				}
 				// R1: AuthenticationOk only if accepted, and after the validator ran
 				okSeen := false
